@@ -240,15 +240,19 @@ func (r *Run) Finish() int {
 		fmt.Fprintf(os.Stderr, "evidence: %v\n", err)
 		return 2
 	}
+	if r.replayKey != "" {
+		// a replay run judges one recorded case; it does not describe what the check covers
+		if r.reproduced {
+			return 1
+		}
+		fmt.Fprintf(os.Stderr, "[%s] replay %s: the recorded violation was not reproduced on this tree (tier=%s seed=%d)\n", r.ID, r.replayPath, r.Tier, r.Seed)
+		return 0
+	}
 	dir := filepath.Join(VerifDir(), "evidence")
 	os.MkdirAll(dir, 0o755)
 	if err := os.WriteFile(filepath.Join(dir, r.ID+".json"), append(b, '\n'), 0o644); err != nil {
 		fmt.Fprintf(os.Stderr, "evidence: %v\n", err)
 		return 2
-	}
-	if r.replayKey != "" && !r.reproduced {
-		fmt.Fprintf(os.Stderr, "[%s] replay %s: the recorded violation was not reproduced on this tree (tier=%s seed=%d)\n", r.ID, r.replayPath, r.Tier, r.Seed)
-		return 0
 	}
 	if r.violations > 0 {
 		return 1
